@@ -159,6 +159,24 @@ def main():
                     bad = judge.judge_iso(yv, wv, inc, fn, lvl, obs)
                     if bad:
                         found.append(dict(case=dict(y=yv, w=wv, inc=inc, functional=fn, level=lvl, y_dtype=yk, w_dtype=wk), clauses=bad, observed=obs))
+        # the direction flag given as numpy bool / int instead of a Python bool
+        import numpy as _np
+        from model_diagnostics._utils.isotonic import isotonic_regression as _ir
+        for fn in fset:
+            for flag, inc in ((_np.False_, False), (0, False), (_np.True_, True), (1, True)):
+                if found:
+                    break
+                tried += 1
+                yv = [5.0, 1.0, 4.0, 2.0, 0.0] if not inc else [0.0, 2.0, 1.0, 4.0, 3.0]
+                lvl = 0.5 if fn in ("mean", "median") else 0.3
+                try:
+                    x_, r_ = _ir(_np.asarray(yv), increasing=flag, functional=fn, level=lvl)
+                    obs = ("ok", [float(v) for v in x_], [int(k) for k in r_])
+                except Exception as e:  # noqa: BLE001
+                    obs = ("Other", type(e).__name__)
+                bad = judge.judge_iso(yv, None, inc, fn, lvl, obs)
+                if bad:
+                    found.append(dict(case=dict(y=yv, w=None, inc=inc, functional=fn, level=lvl, increasing_given_as=repr(flag)), clauses=bad, observed=obs))
         rng = random.Random(seed)
         while not found and tried < budget:
             d = iso.gen_case(rng, 14)
